@@ -329,6 +329,10 @@ def lit_fraction(node: ast.Constant):
 def binop(op, a, b, node=None):
     if isinstance(a, Arr) or isinstance(b, Arr):
         return Arr.zip(a, b, lambda x, y: binop(op, x, y, node))
+    if isinstance(a, StoreArr) and is_scalar(b):
+        r = StoreArr(a.fill, a.shape)
+        r.cells = {k: binop(op, v, b, node) for k, v in a.cells.items()}
+        return r
     if isinstance(a, (tuple, list)) and isinstance(b, (tuple, list)) \
             and isinstance(op, ast.Add):
         return type(a)(list(a) + list(b))
@@ -598,6 +602,9 @@ class Interp:
         if isinstance(t, ast.Subscript):
             o = self.eval(t.value, env, module)
             ix = self.eval_index(t.slice, env, module)
+            if hasattr(o, "skv_setitem"):
+                o.skv_setitem(ix, v)
+                return
             if isinstance(o, StoreArr):
                 o[ix] = v
                 return
@@ -779,6 +786,8 @@ class Interp:
         raise Unsupported("comparison operator", node)
 
     def subscript(self, o, ix, node):
+        if hasattr(o, "skv_getitem"):
+            return o.skv_getitem(ix)
         if isinstance(o, (Arr, SymArr, StoreArr)):
             return o[ix]
         if isinstance(o, (list, tuple)):
@@ -834,6 +843,8 @@ class Interp:
             r = self.attr_hook(self, o, name, node)
             if r is not NotImplemented:
                 return r
+        if hasattr(o, "skv_getattr"):
+            return o.skv_getattr(name)
         if isinstance(o, Obj):
             if name in o.attrs:
                 return o.attrs[name]
@@ -944,6 +955,8 @@ class Interp:
             return range(*ints)
         if n == "len":
             v = args[0]
+            if hasattr(v, "skv_len"):
+                return v.skv_len()
             if isinstance(v, Arr):
                 return v.shape[0]
             if isinstance(v, (list, tuple, dict, str, range)):
